@@ -19,7 +19,7 @@ for name in sorted(os.listdir(SRC)):
     shutil.copy(patch,os.path.join(out,'patch.diff')); shutil.copy(os.path.join(d,'demo_test.go'),os.path.join(out,'demo_test.go'))
     notes=open(os.path.join(d,'notes.txt')).read() if os.path.exists(os.path.join(d,'notes.txt')) else ''
     detected={}
-    if 'CONFIRMED' in conf and pid in claimed:
+    if 'CONFIRMED' in conf and pid in claimed and not os.environ.get('SKIP_DETECT'):
         # which properties to run: the mutant's own, plus the ones sharing the code
         run=[pid]
         r=subprocess.run(['/verif/tools/try_mutant.sh',os.path.join(out,'patch.diff')]+run,capture_output=True,text=True,env=dict(os.environ,HEAD='200',CUT='400'))
